@@ -539,6 +539,17 @@ def check_interp(desc, ctx):
                     want = fill
                 if not allclose(v, want, rel=1e-9, abs_=1e-12):
                     raise Violation(f"loading_at({x}, interp_fill={fill_arg!r}) = {v}, expected {want}", tag="interp_fill")
+        # the refusal outside the range holds on the SAME object after calls that used a fill rule (the property's
+        # "refused ... unless a fill rule is given" is about the call at hand, not about earlier ones)
+        if fill is not None:
+            for x in (below, above):
+                try:
+                    v = iso.loading_at(x, branch=branch)
+                except Exception:  # noqa - refused
+                    continue
+                raise Violation(f"loading_at({x}) outside the measured {branch} range [{ps[0]}, {ps[-1]}] returned {v} without "
+                                f"a fill rule (after earlier calls with interp_fill={fill_arg!r} on the same isotherm)",
+                                tag="interp_outside_not_refused_after_fill")
         # pressure_at (needs strictly monotonic loading)
         if np.all(np.diff(ls) > 0):
             ql = np.clip(_queries(ls, desc["q"]), ls[0], ls[-1])
@@ -547,6 +558,8 @@ def check_interp(desc, ctx):
             if not allclose(gotp, expp, rel=1e-12, abs_=1e-300):
                 raise Violation(f"pressure_at({ql.tolist()}, branch={branch}) = {gotp.tolist()} != {expp.tolist()}",
                                 tag="interp_inside")
+            if fill is not None:
+                iso.pressure_at(ql, branch=branch, interp_fill=fill_arg)  # a fill-enabled call first, then none
             try:
                 v = iso.pressure_at(ls[-1] * (1 + desc["out"]), branch=branch)
                 raise Violation(f"pressure_at above the measured loading range returned {v}", tag="interp_outside_not_refused")
